@@ -7,7 +7,7 @@ import (
 func init() {
 	register(&Prop{
 		ID:          "C01",
-		Decided:     "(1) types.TimeSlot.Contains is the half-open test Start<=t<End under all orderings; (2) in every tumbling-window loop that cuts tw.data, the take predicate is exactly membership in the fired slot and the keep predicate drops taken rows and retains rows of later intervals; (3) the current interval is only ever replaced by NextSlot() outside initialisation (no interval is skipped), and slot constructors tile: NextSlot starts at the current End and every slot ends at start+size, the first slot starts at alignWindowStart(ts,size); (4) the watermark handler extracts a slot only under watermark>=End; (5) the event-time Add discards a row only when IsEventTimeLate(ts) or no timestamp; (6) each taken row is stamped with the slot that selected it; (7) currentSlot is reassigned on every path between extracting the current slot and releasing the lock for delivery; (8) writers of TumblingWindow.data/currentSlot are the owner set; lock discipline of TumblingWindow fields. (10) the row buffer is used order-blind (append, element-wise rebuild, range loops): no positional read, binary search or prefix re-slice that would treat the arrival-ordered buffer as time-ordered. Also: every time.Now() in the window's Add (the processing-time stamp of the row) is executed with the window lock held exclusively, so no Trigger can deliver the stamped interval between the clock read and the placement (locks/clock-read-under-lock). Also: no comparison in the window's methods has a buffered row's timestamp on one side and a time derived from the lateness allowance (closeTime, AllowedLateness) on the other: which rows belong to an expired window is decided by its interval alone (shape/row-eviction-ignores-lateness). Also: in the window's methods that send on its output channel, every receive from that channel (drop-oldest eviction) is followed on every path by an increment of droppedCount (flow/evicted-result-counted).",
+		Decided:     "(1) types.TimeSlot.Contains is the half-open test Start<=t<End under all orderings; (2) in every tumbling-window loop that cuts tw.data, the take predicate is exactly membership in the fired slot and the keep predicate drops taken rows and retains rows of later intervals; (3) the current interval is only ever replaced by NextSlot() outside initialisation (no interval is skipped), and slot constructors tile: NextSlot starts at the current End and every slot ends at start+size, the first slot starts at alignWindowStart(ts,size); (4) the watermark handler extracts a slot only under watermark>=End; (5) the event-time Add discards a row only when IsEventTimeLate(ts) or no timestamp; (6) each taken row is stamped with the slot that selected it; (7) currentSlot is reassigned on every path between extracting the current slot and releasing the lock for delivery; (8) writers of TumblingWindow.data/currentSlot are the owner set; lock discipline of TumblingWindow fields. (10) the row buffer is used order-blind (append, element-wise rebuild, range loops): no positional read, binary search or prefix re-slice that would treat the arrival-ordered buffer as time-ordered. Also: every time.Now() in the window's Add (the processing-time stamp of the row) is executed with the window lock held exclusively, so no Trigger can deliver the stamped interval between the clock read and the placement (locks/clock-read-under-lock). Also: no comparison in the window's methods has a buffered row's timestamp on one side and a time derived from the lateness allowance (closeTime, AllowedLateness) on the other: which rows belong to an expired window is decided by its interval alone (shape/row-eviction-ignores-lateness). Also: in the window's methods that send on its output channel, every receive from that channel (drop-oldest eviction) is followed on every path by an increment of droppedCount (flow/evicted-result-counted). Also: the aligned start of an interval is computed from the timestamp's offset from the Unix epoch and never by time.Time.Truncate/Round, which count multiples from Go's zero time (shape/epoch-aligned).",
 		NotDecided:  "arithmetic of alignWindowStart (truncation for pre-1970 stamps), equality of aggregate values, liveness (that an interval is eventually reported), exactly-once as a count over all schedules, the on-time row earlier than the first slot.",
 		Assumptions: []string{"processing-time stamps are taken under tw.mu and slots only advance on ticks (domain ts>=Start for Trigger's keep table is not needed: the table constrains only ts>=Start cases)"},
 		Run:         runC01,
